@@ -686,3 +686,11 @@ mod tests {
         assert_eq!(prepped.headers()[USER_AGENT], "foobaz");
     }
 }
+
+#[cfg(feature = "verif-hooks")]
+impl<B> RequestBuilder<B> {
+    /// Read-only picture of the effective settings (verification hook).
+    pub fn verif_snapshot(&self) -> crate::verif::SettingsSnapshot {
+        crate::verif::snapshot(&self.base_settings)
+    }
+}
